@@ -661,6 +661,15 @@ fn serve() {
 }
 
 fn main() {
+    // A runner whose explorer has gone (it exited on a machinery failure, or was killed) must not keep
+    // running the program it was given: without the hooks there is no instruction budget to stop it.
+    let parent = std::os::unix::process::parent_id();
+    std::thread::spawn(move || loop {
+        std::thread::sleep(std::time::Duration::from_millis(500));
+        if std::os::unix::process::parent_id() != parent {
+            std::process::exit(0);
+        }
+    });
     // A big, fixed stack so that the host-stack depth reached by recursive Display/==/mark is a property
     // of the program under test and not of the environment's ulimit.
     let t = std::thread::Builder::new()
